@@ -131,6 +131,39 @@ type c15TwoEmbedded struct {
 	O *bool `cbor:"1,keyasint,omitempty" json:"o,omitempty"`
 }
 
+// member names that need escaping in a JSON document (a backslash, HTML characters, a blank and a non-ASCII letter)
+type c15OddNames struct {
+	A *int64  `cbor:"1,keyasint" json:"a\\b"`
+	B *string `cbor:"2,keyasint,omitempty" json:"q<&>,omitempty"`
+	C *[]byte `cbor:"-3,keyasint,omitempty" json:"\u00e9 c,omitempty"`
+}
+
+// the JSON name of one field is the decimal text of the CBOR key of another, earlier field
+type c15NameIsKey struct {
+	Desc   *string `cbor:"2,keyasint,omitempty" json:"desc,omitempty"`
+	Stage2 *int64  `cbor:"20,keyasint" json:"2"`
+	Three  *int64  `cbor:"3,keyasint,omitempty" json:"20,omitempty"`
+}
+
+// two embedded siblings: the first nests a struct that declares key 30 without omitempty, the second re-declares key 30
+// (and the member name) with omitempty and never sets it
+type c15Deep struct {
+	K *int64 `cbor:"30,keyasint" json:"k"`
+}
+type c15FirstSib struct {
+	c15Deep
+	X *string `cbor:"31,keyasint,omitempty" json:"x,omitempty"`
+}
+type c15SecondSib struct {
+	K2 *int64  `cbor:"30,keyasint,omitempty" json:"k,omitempty"`
+	Y  *uint16 `cbor:"32,keyasint,omitempty" json:"y,omitempty"`
+}
+type c15Siblings struct {
+	c15FirstSib
+	c15SecondSib
+	O *bool `cbor:"1,keyasint,omitempty" json:"o,omitempty"`
+}
+
 // an embedded interface holding a struct BY VALUE (serialise only: it cannot be populated in place)
 type c15ValImpl struct {
 	B *string `cbor:"2,keyasint,omitempty" json:"b,omitempty"`
@@ -256,6 +289,22 @@ var twoEmbFields = []c15Field{
 	{"R1", -21, "r1", false, func(r any, v int) { x := bytv(v); r.(*c15TwoEmbedded).R1 = &x }, func(v int) *mcbor.Node { return mcbor.B(bytv(v)) }, func(v int) any { return b64(bytv(v)) }, nil},
 	{"R2", 22, "r2", false, func(r any, v int) { x := u16v(v); r.(*c15TwoEmbedded).R2 = &x }, func(v int) *mcbor.Node { return mcbor.U(uint64(u16v(v))) }, func(v int) any { return u16v(v) }, nil},
 }
+var oddNameFields = []c15Field{
+	{"A", 1, "a\\b", true, func(r any, v int) { x := i64v(v); r.(*c15OddNames).A = &x }, func(v int) *mcbor.Node { return mcbor.I(i64v(v)) }, func(v int) any { return i64v(v) }, nil},
+	{"B", 2, "q<&>", false, func(r any, v int) { x := strv(v); r.(*c15OddNames).B = &x }, func(v int) *mcbor.Node { return mcbor.T(strv(v)) }, func(v int) any { return strv(v) }, nil},
+	{"C", -3, "\u00e9 c", false, func(r any, v int) { x := bytv(v); r.(*c15OddNames).C = &x }, func(v int) *mcbor.Node { return mcbor.B(bytv(v)) }, func(v int) any { return b64(bytv(v)) }, nil},
+}
+var nameIsKeyFields = []c15Field{
+	{"Desc", 2, "desc", false, func(r any, v int) { x := strv(v); r.(*c15NameIsKey).Desc = &x }, func(v int) *mcbor.Node { return mcbor.T(strv(v)) }, func(v int) any { return strv(v) }, nil},
+	{"Stage2", 20, "2", true, func(r any, v int) { x := i64v(v); r.(*c15NameIsKey).Stage2 = &x }, func(v int) *mcbor.Node { return mcbor.I(i64v(v)) }, func(v int) any { return i64v(v) }, nil},
+	{"Three", 3, "20", false, func(r any, v int) { x := i64v(v + 1); r.(*c15NameIsKey).Three = &x }, func(v int) *mcbor.Node { return mcbor.I(i64v(v + 1)) }, func(v int) any { return i64v(v + 1) }, nil},
+}
+var siblingFields = []c15Field{ // outer field first, then the embedded structs in declaration order, each one's own fields before what it embeds
+	{"O", 1, "o", false, func(r any, v int) { x := v%2 == 0; r.(*c15Siblings).O = &x }, func(v int) *mcbor.Node { return mcbor.Bool(v%2 == 0) }, func(v int) any { return v%2 == 0 }, nil},
+	{"X", 31, "x", false, func(r any, v int) { x := strv(v); r.(*c15Siblings).X = &x }, func(v int) *mcbor.Node { return mcbor.T(strv(v)) }, func(v int) any { return strv(v) }, nil},
+	{"K", 30, "k", true, func(r any, v int) { x := i64v(v); r.(*c15Siblings).K = &x }, func(v int) *mcbor.Node { return mcbor.I(i64v(v)) }, func(v int) any { return i64v(v) }, nil},
+	{"Y", 32, "y", false, func(r any, v int) { x := u16v(v); r.(*c15Siblings).Y = &x }, func(v int) *mcbor.Node { return mcbor.U(uint64(u16v(v))) }, func(v int) any { return u16v(v) }, nil},
+}
 var valImplFields = []c15Field{
 	{"B", 2, "b", false, func(r any, v int) {
 		x := strv(v)
@@ -306,6 +355,9 @@ var c15Shapes = []c15Shape{
 	{"keys-wider-than-32-bits", func() any { return &c15BigKeys{} }, bigKeyFields, false, false},
 	{"outer-field-shadows-embedded-key", func() any { return &c15Shadow{} }, shadowFields, true, false},
 	{"two-embedded-structs", func() any { return &c15TwoEmbedded{} }, twoEmbFields, true, false},
+	{"member-names-needing-escapes", func() any { return &c15OddNames{} }, oddNameFields, false, false},
+	{"member-name-is-another-fields-key", func() any { return &c15NameIsKey{} }, nameIsKeyFields, false, false},
+	{"siblings-redeclaring-a-nested-key", func() any { return &c15Siblings{} }, siblingFields, true, false},
 	{"iface-holding-struct-by-value", func() any { return &c15IfaceEmb{C15Iface: c15ValImpl{}} }, append(append([]c15Field{}, ifaceOwnFields...), valImplFields...), true, true},
 }
 
@@ -479,7 +531,9 @@ func c15Eval(c *choice.Ctx, st *Stats, sh c15Shape, mask int, variant int, perm 
 	} else if !c15Equal(x, y) {
 		c.Failf("C15:json-roundtrip:"+tag, "populate(serialize(x)) != x (%s)\n x %s\n y %s", desc, dump(x), dump(y))
 	}
-	if !sh.embedded {
+	// (a member name with a backslash is not a name encoding/json takes from a tag: it falls back to the Go field name,
+	// so there is no plain counterpart to compare with; the round trip above is demanded all the same)
+	if !sh.embedded && sh.name != "member-names-needing-escapes" {
 		plain, _ := json.Marshal(x)
 		var pm map[string]any
 		json.Unmarshal(plain, &pm)
